@@ -338,6 +338,14 @@ pub fn derive_block(input: TokenStream) -> TokenStream {
         b
     ];
 
+    // One generic parameter list for all `into` fields (none if there are no
+    // such fields): `<A: Into<X>>,<B: Into<Y>>` is not valid syntax.
+    let new_generics = if other_into_types.is_empty() {
+        quote! {}
+    } else {
+        quote! { <#(#other_into_types),*> }
+    };
+
     let mut extra = vec![]; // If requested, generate some extra code.
 
     // Create new(), if requested.
@@ -353,7 +361,7 @@ pub fn derive_block(input: TokenStream) -> TokenStream {
                 /// output streams.
                 ///
                 /// This function is automatically generated by a macro.
-                pub fn new #(<#other_into_types>),*(#(#in_name_types,)*#(#other_name_types),*) -> (Self #(,#out_stream_type)*) {
+                pub fn new #new_generics(#(#in_name_types,)*#(#other_name_types),*) -> (Self #(,#out_stream_type)*) {
                     #(let #out_names = #out_factory;)*
                     (Self {
                     #(#in_names,)*
